@@ -176,7 +176,31 @@ pub fn run(ctx: &Ctx) -> Report {
     rep.add(positions(ctx, "roundtrip", ctx.tier.scale(40_000, 25), (2, 3, 5), 40, |v, st| {
         st.eval(1);
         st.class("board-roundtrip");
-        match BoardBuilder::from_board(v.board).build() {
+        // the builder's own fields and accessors show the board's position
+        let bb = BoardBuilder::from_board(v.board);
+        let want = RawState::from_pos(v.pos);
+        let mut shown = RawState::empty();
+        for s in 0..64u8 {
+            if bb.square(lsq(s)) != bb.board[s as usize] {
+                return Err(v.fail("C09:from_board-fields", format!("{}: from_board(board).square({}) differs from its board array", v.describe(), sq_name(s))));
+            }
+            shown.board[s as usize] = bb.square(lsq(s)).map(|(p, c)| (mkind(p), mside(c)));
+        }
+        shown.stm = mside(bb.side_to_move);
+        for side in [Side::W, Side::B] {
+            let r = bb.castle_rights(lside(side));
+            shown.rights[side.idx()] = [r.short.map(|f| f as u8), r.long.map(|f| f as u8)];
+            if *r != bb.castle_rights[lside(side) as usize] {
+                return Err(v.fail("C09:from_board-fields", format!("{}: from_board(board).castle_rights({:?}) differs from its rights array", v.describe(), side)));
+            }
+        }
+        shown.ep = bb.en_passant.map(msq);
+        shown.hm = bb.halfmove_clock;
+        shown.fm = bb.fullmove_number;
+        if shown != want {
+            return Err(v.fail("C09:from_board-fields", format!("{}: from_board(board) holds '{}', the board shows '{}'", v.describe(), shown.text(), want.text())));
+        }
+        match bb.build() {
             Ok(b) if &b == v.board && b.hash() == v.board.hash() => Ok(()),
             other => Err(v.fail("C09:from_board-roundtrip", format!("{}: from_board(board).build() gives {:?}", v.describe(), other.map(|b| format!("{:#}", b))))),
         }
